@@ -16,7 +16,7 @@ func init() {
 		ID:     "C17",
 		Word32: true,
 		Level:  "exploration",
-		Rule: "E1 bounded-exhaustive enumeration: the C16 key sets (every non-empty sorted subset of the suffix-key universes behind each stem) × every maxSize in [1, len+1]; plus chains a, aa, aaa, ... of 33..258 keys and a 36-level directory tree (as many oversized ranges nested in one another as there are keys); plus two key sets of 1111 and 4161 keys with 25 maxSize values around powers of two; plus generated key lists of EVERY threshold size n = b-1, b, b+1 (b in 2^k, 3·2^k, 10^k, 2·10^k, 5·10^k) from 1000 up to 400001 keys (thorough: 2^20+1) in two styles × maxSize in {1,2,3,255,256,257,4096,n/2,n-1,n,n+1}. Oracle, clause by clause from the statement: boundaries start at 0, strictly increase and end at len; every shard holds ≤ maxSize keys; L[j] is the byte length of the longest common prefix of the shard computed by direct comparison (the key's own length for a single key); shard prefixes strictly ascending. LONG keys: eight keys around a shared stem of EVERY threshold length 81..70000 (thorough 2^20+1) bytes × every maxSize 1..9. " +
+		Rule: "E1 bounded-exhaustive enumeration: the C16 key sets (every non-empty sorted subset of the suffix-key universes behind each stem) × every maxSize in [1, len+1]; plus chains a, aa, aaa, ... of 33..258 keys and a 36-level directory tree (as many oversized ranges nested in one another as there are keys); plus key TREES by shape (every sequence of one or two groups over 107 shapes - a first letter that is a key or not, 0/1/2/5/6/7 children, optionally a nested subgroup of 2/5/6 grandchildren - and of three groups over a reduced shape alphabet: one range splitting into 6..8 single keys next to a sibling leaf of 5..7 keys with a longer common prefix) × every maxSize in [1, len+1]; plus two key sets of 1111 and 4161 keys with 25 maxSize values around powers of two; plus generated key lists of EVERY threshold size n = b-1, b, b+1 (b in 2^k, 3·2^k, 10^k, 2·10^k, 5·10^k) from 1000 up to 400001 keys (thorough: 2^20+1) in two styles × maxSize in {1,2,3,255,256,257,4096,n/2,n-1,n,n+1}. Oracle, clause by clause from the statement: boundaries start at 0, strictly increase and end at len; every shard holds ≤ maxSize keys; L[j] is the byte length of the longest common prefix of the shard computed by direct comparison (the key's own length for a single key); shard prefixes strictly ascending. LONG keys: eight keys around a shared stem of EVERY threshold length 81..70000 (thorough 2^20+1) bytes × every maxSize 1..9. " +
 			"A case is one call; non-trivial when the set has ≥3 keys and maxSize < len; key sets that re-occur in a later family are executed again but counted once.",
 		Assumptions: []string{"key sets are drawn from small byte alphabets behind fixed stems"},
 		Run:         c17Run,
@@ -155,7 +155,114 @@ func c17Run(c *mc.Ctx) {
 		c.Count(evals, nontriv)
 		c.Add("key_sets", sets)
 	})
+	c17Fans(c)
 	c17Big(c)
+}
+
+// c17FanShape: one group of keys below a first letter g: g itself (or not), n children g+'a'.., and
+// optionally a nested subgroup in place of child 'b': "gb" itself (or not) and nb grandchildren "gb"+'a'..
+type c17FanShape struct {
+	self   bool
+	n      int
+	nested bool
+	selfB  bool
+	nb     int
+	at     int // the child index the nested subgroup replaces (0: before its siblings, 1: after the first)
+}
+
+func (sh c17FanShape) keys(g byte) []string {
+	var out []string
+	if sh.self {
+		out = append(out, string([]byte{g}))
+	}
+	for i := 0; i < sh.n; i++ {
+		ch := byte('a' + i)
+		if sh.nested && i == sh.at {
+			if sh.selfB {
+				out = append(out, string([]byte{g, ch}))
+			}
+			for j := 0; j < sh.nb; j++ {
+				out = append(out, string([]byte{g, ch, byte('a' + j)}))
+			}
+			continue
+		}
+		out = append(out, string([]byte{g, ch}))
+	}
+	return out
+}
+
+func c17FanShapes(reduced bool) []c17FanShape {
+	var out []c17FanShape
+	for _, self := range []bool{false, true} {
+		for _, n := range []int{0, 1, 2, 5, 6, 7} {
+			if !self && n == 0 {
+				continue
+			}
+			if reduced && (n == 1 || n == 5) {
+				continue
+			}
+			out = append(out, c17FanShape{self: self, n: n})
+			if n < 2 || (reduced && self) {
+				continue
+			}
+			for _, selfB := range []bool{false, true} {
+				for _, nb := range []int{2, 5, 6} {
+					if reduced && (nb == 2 || selfB) {
+						continue
+					}
+					out = append(out, c17FanShape{self, n, true, selfB, nb, 1})
+					if !reduced || nb == 5 {
+						out = append(out, c17FanShape{self, n, true, selfB, nb, 0})
+					}
+				}
+			}
+		}
+	}
+	return out
+}
+
+// c17Fans: key TREES by shape. The subset families have a fan-out of at most 3 or 4 below any prefix and the
+// full-fan-out families are taken whole; in between lie trees in which one range splits into 6..8 single
+// keys (more than maxSize) while a SIBLING range is a leaf of 5..7 keys with a longer common prefix, nested
+// one level down. Every sequence of one or two groups over 107 shapes (self key or not; 0/1/2/5/6/7 children;
+// optionally a nested subgroup of 2/5/6 grandchildren with or without its own key) and every sequence of
+// three groups over a reduced alphabet, x EVERY maxSize 1..len+1.
+func c17Fans(c *mc.Ctx) {
+	full, red := c17FanShapes(false), c17FanShapes(true)
+	var sets [][]string
+	for _, a := range full {
+		sets = append(sets, a.keys('a'))
+		for _, b := range full {
+			sets = append(sets, append(a.keys('a'), b.keys('b')...))
+		}
+	}
+	for _, a := range red {
+		for _, b := range red {
+			for _, d := range red {
+				sets = append(sets, append(append(a.keys('a'), b.keys('b')...), d.keys('c')...))
+			}
+		}
+	}
+	for _, ks := range sets {
+		c.Expect(int64(len(ks) + 1))
+	}
+	c.Set("fan_tree_key_sets", len(sets))
+	c.Par(len(sets), func(i int) {
+		keys := sets[i]
+		n := int32(len(keys))
+		for max := int32(1); max <= n+1; max++ {
+			L, B, p := shardByPrefix(keys, max)
+			v := p
+			if p == "" {
+				v = c17Verdict(keys, max, L, B)
+			}
+			if v != "" {
+				c.Fail(int64(7)<<56|int64(i)<<8|int64(max), "ShardByPrefix", "ShardByPrefix/fan-trees", c16Case{Keys: gen.BytesList(append([]string(nil), keys...)), Max: max}, c17Clip(L, B)+v, "all clauses of the statement hold")
+			}
+		}
+		c.Count(int64(n+1), int64(n+1))
+		c.Add("fan_tree_calls", int64(n+1))
+	})
 }
 
 // c17Big: ShardByPrefix on generated key lists of every threshold size.
